@@ -31,18 +31,26 @@ pub fn run(tier: Tier) -> i32 {
 
     // ------------------------------------------------------------ LZMA, size-bounded
     {
-        let depth = tier.pick(2usize, 3usize);
+        let depth = tier.pick(3usize, 4usize);
         let sigma = automaton_alphabet(seed);
         let total = count_upto(sigma.len(), depth);
         let name = format!("lzma-size-bounded/depth<={}", depth);
         if ctx.may_start(&name) {
             let t0 = Instant::now();
             let cases = std::sync::atomic::AtomicU64::new(0);
-            par_for(total * 2, |i| {
+            // besides setup . Sigma^<=d: the degenerate payloads (empty output, one literal, two literals)
+            let edge: Vec<Vec<Sym>> = vec![vec![], vec![Sym::L(0x41)], vec![Sym::L(0x41), Sym::L(0x42)], vec![Sym::L(0); 300]];
+            let nedge = edge.len() as u64;
+            par_for((total + nedge) * 2, |i| {
                 let (lc, lp, pb) = [(3u32, 0u32, 2u32), (0, 2, 0)][(i % 2) as usize];
-                let seq = nth_seq(sigma.len(), depth, i / 2);
-                let mut prog: Vec<Sym> = (0..4).map(|k| Sym::L(0x61 + k * 7)).collect();
-                prog.extend(seq.iter().map(|&k| sigma[k]));
+                let prog: Vec<Sym> = if i / 2 < nedge {
+                    edge[(i / 2) as usize].clone()
+                } else {
+                    let seq = nth_seq(sigma.len(), depth, i / 2 - nedge);
+                    let mut prog: Vec<Sym> = (0..4).map(|k| Sym::L(0x61 + k * 7)).collect();
+                    prog.extend(seq.iter().map(|&k| sigma[k]));
+                    prog
+                };
                 let e = enc::encode(lc, lp, pb, u64::MAX, &prog);
                 if e.bad.is_some() {
                     return;
